@@ -111,6 +111,7 @@ def holds(c, env) -> bool:
 
 def gen(rng: Rng) -> dict:
     wild = rng.chance(0.15)      # outside C02's scope: or_ over different variables (Union), negated compound conditions
+    share = rng.chance(0.35)     # identical call atoms are ONE Python object used in several places of the condition
     names = ["x"] if rng.chance(0.45) else ["x", "y"]
     doms = {n: rng.sample([0, 1, 2, 3, 4], rng.randint(1, 4)) for n in names}
 
@@ -119,7 +120,17 @@ def gen(rng: Rng) -> dict:
             return ["lit", rng.randint(0, 3)]
         return ["var", rng.choice(names)]
 
+    pool: List[Any] = []
+
     def atom():
+        if share and pool and rng.chance(0.6):
+            return rng.choice(pool)
+        a = fresh_atom()
+        if share and a[0] == "pred" and len(pool) < 2:
+            pool.append(a)
+        return a
+
+    def fresh_atom():
         r = rng.random()
         if r < 0.3:
             return ["cmp", rng.choice(list(OPS)), ["var", rng.choice(names)], opnd()]
@@ -149,7 +160,10 @@ def gen(rng: Rng) -> dict:
     if not used:
         c = ["and", c, ["pred", "p_pos", [["var", "x"]]]]
         used = ["x"]
-    return {"vars": used, "doms": {n: doms[n] for n in used}, "cond": c}
+    case = {"vars": used, "doms": {n: doms[n] for n in used}, "cond": c}
+    if share:
+        case["share"] = True
+    return case
 
 
 def run_impl(case) -> Any:
@@ -158,6 +172,8 @@ def run_impl(case) -> Any:
     F = _funcs()
     try:
         vs = {n: let(int, list(case["doms"][n]), name=n) for n in case["vars"]}
+
+        shared: Dict[str, Any] = {}
 
         def val(e):
             return vs[e[1]] if e[0] == "var" else e[1]
@@ -168,7 +184,12 @@ def run_impl(case) -> Any:
                 l, r = val(c[2]), val(c[3])
                 return {"==": l.__eq__, "!=": l.__ne__, "<": l.__lt__, "<=": l.__le__, ">": l.__gt__, ">=": l.__ge__}[c[1]](r)
             if k == "pred":
-                return F[c[1]](*[val(e) for e in c[2]])
+                if not case.get("share"):
+                    return F[c[1]](*[val(e) for e in c[2]])
+                key = json.dumps(c)
+                if key not in shared:        # the same call object wherever the same call is written
+                    shared[key] = F[c[1]](*[val(e) for e in c[2]])
+                return shared[key]
             if k == "not":
                 return not_(cond(c[1]))
             if k == "and":
@@ -181,6 +202,21 @@ def run_impl(case) -> Any:
         return sorted([r[s] for s in sel] for r in an(set_of(sel, cond(case["cond"]))).evaluate())
     except Exception as e:  # noqa
         return ["exc", type(e).__name__, str(e)[:120]]
+
+
+def _max_repeat(c) -> int:
+    cnt: Dict[str, int] = {}
+
+    def walk(c):
+        if c[0] == "pred":
+            k = json.dumps(c)
+            cnt[k] = cnt.get(k, 0) + 1
+        elif c[0] == "not":
+            walk(c[1])
+        elif c[0] in ("and", "or"):
+            walk(c[1]); walk(c[2])
+    walk(c)
+    return max(cnt.values(), default=0)
 
 
 def spec(case) -> List[List[int]]:
@@ -200,6 +236,12 @@ def stream(rep, rng: Rng, tier: str) -> None:
     n = 400 if tier == "quick" else 6000
     corpus = [{"vars": ["x"], "doms": {"x": [0, 1, 2, 3, 4]},
                "cond": ["or", ["pred", "p_small", [["var", "x"]]], ["pred", "p_even", [["var", "x"]]]]}]   # C02-a
+    ps, pe = ["pred", "p_small", [["var", "x"]]], ["pred", "p_even", [["var", "x"]]]
+    c1, c2 = ["cmp", ">=", ["var", "x"], ["lit", 1]], ["cmp", "<=", ["var", "x"], ["lit", 3]]
+    for cond in (["or", ["and", ps, c1], ["and", ["not", ps], c2]],                # one call object in both or_ branches, once under not_
+                 ["and", ["or", ps, c2], ["not", ps]], ["and", ["and", c2, ["not", ps]], ps],
+                 ["or", ["and", pe, ["not", ps]], ["and", ["not", pe], ps]]):
+        corpus.append({"vars": ["x"], "doms": {"x": [0, 1, 2, 3, 4]}, "cond": cond, "share": True})
     cases = corpus + [gen(rng.fork(i)) for i in range(n)]
     # theorems and model of the predicate bridge
     ok, log = core.coq_make(["Props/C02b.vo"])
@@ -272,7 +314,8 @@ def stream(rep, rng: Rng, tier: str) -> None:
         bad += 1
         if bad <= 2:
             report(c, got, want, "inside the fragment the rows must be exactly one per satisfying assignment", code)
-    rep.extra["predicate_stream"] = {"cases": len(cases), "nonempty": nonempty, "or_with_predicates": npred_or, "disagreements": bad,
+    rep.extra["predicate_stream"] = {"cases": len(cases), "shared_call_objects": sum(1 for c in cases if c.get("share")),
+                                     "shared_object_used_twice_or_more": sum(1 for c in cases if c.get("share") and _max_repeat(c["cond"]) >= 2), "nonempty": nonempty, "or_with_predicates": npred_or, "disagreements": bad,
                                      "three_way_in_coq": codes is not None, "outside_fragment": outside,
                                      "outside_fragment_bag_differs_as_model_predicts": outside_differs,
                                      "model_stale": stale, "spec_cross_check_mismatches": spec_mismatch}
